@@ -230,6 +230,120 @@ def tee_pattern(rng, N, nchild):
     return worst, steps
 
 
+def concurrent_tee_probe(rep):
+    """tee with a lock, all children advanced *concurrently* (every one is inside its __anext__ at the same time) over a
+    source that suspends: after each round every child is at the same position, so nothing may be buffered -- a child that
+    waited for the lock takes the item its peer fetched meanwhile instead of reading ahead"""
+    import asyncio
+    import weakref
+    fails = 0
+
+    class Item:
+        pass
+
+    for nchild in (2, 3, 5):
+        made = []
+
+        class Source:
+            def __aiter__(self):
+                return self
+
+            async def __anext__(self):
+                await asyncio.sleep(0)
+                it = Item()
+                made.append(weakref.ref(it))
+                return it
+
+        async def main():
+            worst = 0
+            t = a.tee(Source(), n=nchild, lock=asyncio.Lock())
+            for _ in range(6):
+                got = await asyncio.gather(*[c.__anext__() for c in t])
+                if builtins.any(x is not got[0] for x in got):
+                    return "the children received different items in one round"
+                del got
+                gc.collect()
+                worst = builtins.max(worst, builtins.sum(1 for w in made if w() is not None))
+            await t.aclose()
+            return worst
+        try:
+            worst = asyncio.run(main())
+        except BaseException as e:  # noqa
+            worst = "failed with %r" % (e,)
+        rep.count(("tee-concurrent-rounds", nchild), True)
+        # (one item may stay referenced by the local variable of the child that fetched it last)
+        if worst not in (0, 1):
+            fails += 1
+            rep.violation("retention:tee-concurrent", {"children": nchild, "why": "%d children advanced concurrently, six rounds, asyncio.Lock: after a round all children are at the same position, "
+                                                       "items still alive: %r (bound 1)" % (nchild, worst)})
+    return fails
+
+
+def chain_stream_probe(rep):
+    """chain.from_iterable over a long lazy stream of sub-iterators (class-based closeable ones and async generators, each
+    owning a payload): a sub-iterator that is exhausted is let go of (and closed) before the chain moves on, so the
+    number of sub-iterators alive does not grow with the stream"""
+    import weakref
+    fails = 0
+    for kind in ("class", "generator"):
+        for N in (40, 300):
+            alive = []
+            closed_late = []
+
+            class Payload:
+                pass
+
+            class Sub:
+                def __init__(self, i):
+                    self.i, self.left, self.payload, self.closed = i, 3, Payload(), False
+
+                def __aiter__(self):
+                    return self
+
+                async def __anext__(self):
+                    if not self.left:
+                        raise StopAsyncIteration
+                    self.left -= 1
+                    return self.i
+
+                async def aclose(self):
+                    self.closed = True
+
+            async def subgen(i):
+                payload = Payload()
+                alive.append(weakref.ref(payload))
+                for _ in range(3):
+                    yield i
+                del payload
+
+            async def outer():
+                for i in range(N):
+                    if kind == "class":
+                        sub = Sub(i)
+                        alive.append(weakref.ref(sub.payload))
+                    else:
+                        sub = subgen(i)
+                    yield sub
+                    del sub
+
+            async def main():
+                worst = 0
+                async for x in a.chain.from_iterable(outer()):
+                    gc.collect()
+                    worst = builtins.max(worst, builtins.sum(1 for w in alive if w() is not None))
+                return worst
+            try:
+                worst = drive(main())
+            except BaseException as e:  # noqa
+                worst = "failed with %r" % (e,)
+            rep.count(("chain-stream", kind, N), True)
+            if not isinstance(worst, int) or worst > 3:
+                fails += 1
+                rep.violation("retention:chain-stream", {"sub_iterators": kind, "stream": N, "why": "chain.from_iterable over %d sub-iterators of 3 items: sub-iterator payloads alive at once: %r (bound 3)" % (N, worst)})
+                break
+    return fails
+
+
 def run(tier, seed):
     rep = Report("C20", tier, seed)
     proofs_ok = proof_stage(rep, "C20")
@@ -279,6 +393,8 @@ def run(tier, seed):
             rep.violation("retention:tee", {"children": nchild, "stream": N, "why": ("a tee child failed: %s (positions %r, live %r)" % worst[1:]) if worst[0] == "error" else
                                            "%d items alive although the fastest child leads the slowest live one by %d (positions %r, live %r)" % worst})
             break
+    fails += concurrent_tee_probe(rep)
+    fails += chain_stream_probe(rep)
     if not proofs_ok:
         rep.violation("proof-broken", {"broken": rep.notes.get("broken_file", "?"), "log": rep.notes.get("build_log_tail", "")[-1500:]}, no_input=True)
     return rep.finish()
